@@ -11,6 +11,9 @@
 import IcingaProofs.C07.Cycle
 import IcingaProofs.C07.Registry
 import IcingaProofs.C07.History
+import IcingaProofs.C07.RegReach
+import IcingaProofs.C07.HistReg
+import IcingaProofs.Gen.DepConsts
 
 namespace Icinga.C07
 
@@ -44,6 +47,77 @@ theorem group_state_spec (reach : Nat → Bool) (avail : Dep → Bool) (red : Bo
       (if red then ∃ d ∈ deps, reach d.parent = true ∧ avail d = true
        else ∀ d ∈ deps, reach d.parent = true ∧ avail d = true) :=
   groupState_ok_iff reach avail red deps
+
+/-! ## attributes the configuration leaves unset -/
+
+/-- **unset_states_spec** — a dependency configured without `states`: its parent "is in a state listed in the
+    dependency's state filter" exactly when the parent is Up (host: OK or WARNING plugin state) resp. OK or
+    Warning (service) — `Dependency::OnConfigLoaded`'s default, for every parent state. -/
+theorem unset_states_spec (x : DepDecl) (hs : x.states = none) (p : Node) :
+    stateListed p (x.resolve p.isService).stateFilter = (p.stateRaw == 0 || p.stateRaw == 1) := by
+  simp only [DepDecl.resolve, hs, Option.getD_none, defaultFilter, stateListed]
+  cases hp : p.isService
+  · simp
+  · simp
+
+/-- a dependency configured with nothing but child and parent. -/
+def bareDecl (c p : Nat) : DepDecl :=
+  { child := c, parent := p, group := none, states := none, ignoreSoft := none, period := none,
+    disableChecks := none, disableNotifications := none }
+
+/-- **unset_flags_spec** — availability of a dependency configured with nothing but child and parent, for each
+    aspect: never-checked parent, parent Up / OK / Warning, parent in a soft state (`ignore_soft_states` defaults to
+    true), or — `disable_checks` defaulting to false, `disable_notifications` to true — the question being about
+    check execution.  Checks of the child are NOT suppressed by default, notifications are. -/
+theorem unset_flags_spec (g : Graph) (dt : Aspect) (c p : Nat) (hne : p ≠ c) :
+    available g dt ((bareDecl c p).resolve (g.node p).isService) = true ↔
+      ((g.node p).checked = false ∨ ((g.node p).stateRaw = 0 ∨ (g.node p).stateRaw = 1) ∨ (g.node p).hard = false ∨
+       dt = .checkExec) := by
+  have hd : ((bareDecl c p).resolve (g.node p).isService).parent ≠ ((bareDecl c p).resolve (g.node p).isService).child := hne
+  rw [available_spec g dt _ hd]
+  have hl := unset_states_spec (bareDecl c p) rfl (g.node p)
+  have hp : ((bareDecl c p).resolve (g.node p).isService).parent = p := rfl
+  rw [hp, hl]
+  simp [bareDecl, DepDecl.resolve]
+
+example : (({ child := 1, parent := 0, group := none, states := some 0, ignoreSoft := none, period := none,
+              disableChecks := none, disableNotifications := none } : DepDecl).resolve false).stateFilter = 0 := by decide
+example : (({ child := 1, parent := 0, group := none, states := none, ignoreSoft := none, period := none,
+              disableChecks := none, disableNotifications := none } : DepDecl).resolve true).stateFilter = 3 := by decide
+
+/-! ## the constants of the model against the source (lean/IcingaProofs/Gen/DepConsts.lean, regenerated by
+      gen/c07_consts.py from /repo at the start of every run) -/
+
+section SourceConstants
+open Icinga.Gen.DepConsts
+
+/-- **recursion_limit_matches_source** — the model evaluates the levels `rstack = 0 … l_MaxDependencyRecursionLevel`
+    (`rstack > limit ⇒ false`, checkable-dependency.cpp:191). -/
+theorem recursion_limit_matches_source : topFuel = maxDependencyRecursionLevelSrc + 1 := by decide
+
+/-- **state_filter_bits_match_source** — the bit the model tests for each parent kind and state is the source's
+    `StateFilter*` enumerator (hosts: OK/WARNING plugin state = Up). -/
+theorem state_filter_bits_match_source :
+    (∀ h c hd, stateBit { isService := true, host := h, checked := c, stateRaw := 0, hard := hd } = stateFilterOKSrc) ∧
+    (∀ h c hd, stateBit { isService := true, host := h, checked := c, stateRaw := 1, hard := hd } = stateFilterWarningSrc) ∧
+    (∀ h c hd, stateBit { isService := true, host := h, checked := c, stateRaw := 2, hard := hd } = stateFilterCriticalSrc) ∧
+    (∀ h c hd, stateBit { isService := true, host := h, checked := c, stateRaw := 3, hard := hd } = stateFilterUnknownSrc) ∧
+    (∀ h c hd, stateBit { isService := false, host := h, checked := c, stateRaw := 0, hard := hd } = stateFilterUpSrc) ∧
+    (∀ h c hd, stateBit { isService := false, host := h, checked := c, stateRaw := 1, hard := hd } = stateFilterUpSrc) ∧
+    (∀ h c hd, stateBit { isService := false, host := h, checked := c, stateRaw := 2, hard := hd } = stateFilterDownSrc) ∧
+    (∀ h c hd, stateBit { isService := false, host := h, checked := c, stateRaw := 3, hard := hd } = stateFilterDownSrc) := by
+  refine ⟨?_, ?_, ?_, ?_, ?_, ?_, ?_, ?_⟩ <;> intro _ _ _ <;> rfl
+
+/-- **config_defaults_match_source** — what `DepDecl.resolve` substitutes for unset attributes is what
+    `Dependency::OnConfigLoaded` and dependency.ti say in the checked tree. -/
+theorem config_defaults_match_source :
+    defaultFilter false = defaultFilterHostParentSrc ∧ defaultFilter true = defaultFilterServiceParentSrc ∧
+    (∀ c p s, ((bareDecl c p).resolve s).ignoreSoft = ignoreSoftStatesDefaultSrc) ∧
+    (∀ c p s, ((bareDecl c p).resolve s).disableChecks = disableChecksDefaultSrc) ∧
+    (∀ c p s, ((bareDecl c p).resolve s).disableNotifications = disableNotificationsDefaultSrc) := by
+  refine ⟨by decide, by decide, ?_, ?_, ?_⟩ <;> intro _ _ _ <;> rfl
+
+end SourceConstants
 
 /-! ## reachability -/
 
@@ -392,6 +466,87 @@ theorem runtime_equals_fresh_load (ops : List ROp) (hn : ∀ x, ROp.add x ∈ op
   refine ⟨hu2, hu1, fun c k x => ?_⟩
   rw [viewDeps_eq_drop, viewDeps_eq_drop, (dropGroup_inv h1 c k).2.1 x, (dropGroup_inv h2 c k).2.1 x]
 
+
+/-! ## reachability is evaluated on the registry's group objects: that evaluation is the live set's -/
+
+/-- **reachable_via_registry** — `Checkable::IsReachable` as the code walks it (the group objects the checkable
+    holds in `m_DependencyGroups`, each group's `IsRedundancyGroup()` taken from the GROUP's name, each group's
+    `GetDependenciesForChild(this)` read from the shared registry entry) gives, after EVERY sequence of runtime
+    `AddDependency`/`RemoveDependency` calls from the empty registry, for every assignment of states to the
+    checkables, every aspect and every checkable, exactly the answer of `isReachable` on the graph of the live
+    dependencies — the function `reachable_spec` / `history_meets_spec` are about.  Groups shared between
+    children, merged and split again by additions and removals, never leak another child's dependencies or
+    another group's redundancy semantics into the evaluation.  `eff` supplies per-dependency facts that are not part
+    of the object's identity (is its period closed now); it must keep child and group key (`KeepsShape`; `id` and
+    `Cfg.eff` do). -/
+theorem reachable_via_registry (ops : List ROp) (hn : ∀ x, ROp.add x ∈ ops → x.d.group ≠ some "")
+    (node : Nat → Node) (eff : Dep → Dep) (he : KeepsShape eff) (dt : Aspect) (v : Nat) :
+    isReachableR (ops.foldl applyOp {}) node eff dt v =
+      isReachable (liveGraph node eff (ops.foldl liveAfter [])) dt v :=
+  reachableR_eq (run_inv ops {} [] inv_empty hn) node he dt topFuel v
+
+/-- **reachable_via_fresh_load** — the same for the registry a fresh load builds (`PushDependencyGroupsToRegistry`
+    in any order), hence runtime history and fresh load of the same set answer every reachability question
+    alike. -/
+theorem reachable_via_fresh_load (ops : List ROp) (hn : ∀ x, ROp.add x ∈ ops → x.d.group ≠ some "")
+    (todo : List (Nat × GKey)) (hnd : todo.Nodup)
+    (hcov : ∀ ck, ck ∈ todo ↔ ∃ x ∈ ops.foldl liveAfter [], (x.d.child, x.d.key) = ck)
+    (node : Nat → Node) (eff : Dep → Dep) (he : KeepsShape eff) (dt : Aspect) (v : Nat) :
+    isReachableR (ops.foldl applyOp {}) node eff dt v =
+      isReachableR (pushAll (ops.foldl liveAfter []) {} todo) node eff dt v := by
+  have h1 : Inv (ops.foldl applyOp {}) (ops.foldl liveAfter []) := run_inv ops {} [] inv_empty hn
+  have h2 := fresh_load_spec _ h1.lnodup h1.names todo hnd hcov
+  unfold isReachableR
+  rw [reachableR_eq h1 node he, reachableR_eq h2 node he]
+
+/-- **registry_query_meets_spec** — the specification predicate of a query accepts the answers computed on the
+    registry's group objects after every runtime sequence whose live graph is acyclic and at most 256 levels
+    deep (`eff`: which periods are closed now, or the identity). -/
+theorem registry_query_meets_spec (n : Nat) (ops : List ROp) (hn : ∀ x, ROp.add x ∈ ops → x.d.group ≠ some "")
+    (node : Nat → Node) (eff : Dep → Dep) (he : KeepsShape eff) (rank : Nat → Nat)
+    (hr : Ranked (liveGraph node eff (ops.foldl liveAfter [])) rank) (hdepth : ∀ v, rank v ≤ 256) :
+    specQuery n (liveGraph node eff (ops.foldl liveAfter []))
+      (isReachableR (ops.foldl applyOp {}) node eff)
+      (fun v => (depsOf (liveGraph node eff (ops.foldl liveAfter [])) v).length) = none := by
+  have : isReachableR (ops.foldl applyOp {}) node eff = isReachable (liveGraph node eff (ops.foldl liveAfter [])) := by
+    funext dt v; exact reachable_via_registry ops hn node eff he dt v
+  rw [this]
+  exact model_query_meets_spec n _ rank hr hdepth
+
+/-- **parents_via_registry** — `Checkable::GetParents()` as the code computes it (the parents named by the composite
+    keys of every group object the checkable holds, `DependencyGroup::LoadParents`) is, after every runtime
+    sequence, exactly the set of parents of the checkable's live dependencies — what `edges_equal_live_set` demands
+    (`parentsSpec`): sharing a group with other children adds no foreign parent, removals leave no stale key. -/
+theorem parents_via_registry (ops : List ROp) (hn : ∀ x, ROp.add x ∈ ops → x.d.group ≠ some "") (v p : Nat) :
+    p ∈ parentsR (ops.foldl applyOp {}) v ↔ ∃ x ∈ ops.foldl liveAfter [], x.d.child = v ∧ x.d.parent = p :=
+  mem_parentsR (run_inv ops {} [] inv_empty hn) v p
+
+/-! ## histories and registry side by side -/
+
+/-- **history_queries_via_registry** — the two models composed: run ANY history (loads / runtime creations with the
+    cycle check, removals, state and period changes, queries, read-outs) and drive the registry model with the same
+    operations (`hrunR`: every dependency of an accepted batch through `AddDependency`, every removal through
+    `RemoveDependency`; refused batches touch nothing).  After every such history — hence at every query point, each
+    prefix being a history — `IsReachable` evaluated over the registry's group objects answers, for every aspect and
+    checkable, exactly what the history model answers (the function `history_meets_spec` is about), and the history
+    state is the one of `history_stays_acyclic`.  Hypothesis `FreshRun`: input well-formedness only — a batch brings
+    NEW Dependency objects (ids pairwise different and not live) with non-empty redundancy group names. -/
+theorem history_queries_via_registry (n : Nat) (node : Nat → Node) (ops : List HOp)
+    (hf : FreshRun n { cfg := { node := node } } ops) (dt : Aspect) (v : Nat) :
+    let fin := hrunR n { cfg := { node := node } } {} ops
+    isReachableR fin.2 fin.1.cfg.node fin.1.cfg.eff dt v = isReachable fin.1.cfg.graph dt v ∧
+    fin.1 = ops.foldl (fun hs op => (hstep n hs op).1) ({ cfg := { node := node } } : HState) := by
+  intro fin
+  exact ⟨query_via_registry (j_run n ops _ _ (j_init node) hf) dt v, hrunR_fst n ops _ _⟩
+
+-- non-vacuity: the example history of `HistoryExamples` below is well-formed, and its registry ends with one group
+example : FreshRun 4 { cfg := { node := fun _ => { isService := false, host := none, checked := true, stateRaw := 0, hard := true } } }
+    [.load [(0, { child := 1, parent := 0, group := none, stateFilter := 16, ignoreSoft := false, periodClosed := false,
+                  disableChecks := true, disableNotifications := true })], .query, .remove 0] := by
+  refine ⟨⟨by decide, ?_, ?_⟩, trivial, trivial, trivial⟩
+  · intro x hx; simp at hx; subst hx; simp
+  · intro x hx; simp at hx; subst hx; simp
+
 /-! ## non-vacuity of the registry theorems -/
 
 section RegistryExamples
@@ -423,6 +578,20 @@ example : ∀ x, ROp.add x ∈ exOps → x.d.group ≠ some "" := by
 -- a fresh load of the same four dependencies gives the same single group
 example : ((pushAll ((exOps.foldl liveAfter [])) {} [(2, .named "g1"), (3, .named "g1")]).registry.map
     (fun g : Group => g.members.length)) = [4] := by decide
+
+-- reachability through the registry: host 1 hard Down ⇒ child 2 (redundancy group over {0, 1}) stays reachable,
+-- after member 0 is removed it is not; a plain dependency of child 3 on host 1 makes child 3 unreachable
+def rxNode : Nat → Node
+  | 1 => { isService := false, host := none, checked := true, stateRaw := 2, hard := true }
+  | _ => { isService := false, host := none, checked := true, stateRaw := 0, hard := true }
+example : isReachableR (exOps.foldl applyOp {}) rxNode id .state 2 = true := by decide
+example : isReachableR ((exOps ++ [ROp.remove (rx 0 2 0 (some "g1") false)]).foldl applyOp {}) rxNode id .state 2 = false := by decide
+example : isReachableR ((exOps ++ [ROp.add (rx 5 3 1 none false)]).foldl applyOp {}) rxNode id .state 3 = false := by decide
+example : isReachableR ((exOps ++ [ROp.add (rx 5 3 1 none false)]).foldl applyOp {}) rxNode id .state 2 = true := by decide
+
+example : parentsR (exOps.foldl applyOp {}) 2 = [0, 1] := by decide
+example : parentsR ((exOps ++ [ROp.remove (rx 0 2 0 (some "g1") false)]).foldl applyOp {}) 2 = [1] := by decide
+example : parentsR ((exOps ++ [ROp.remove (rx 0 2 0 (some "g1") false)]).foldl applyOp {}) 3 = [0, 1] := by decide
 
 end RegistryExamples
 
